@@ -789,16 +789,22 @@ class DirectProxyAccessor(WritableAccessor[T_co], PhysicalAccessor[T_co]):
 
         if value._model is not elmlist._model:
             raise ValueError("Cannot move elements between models")
+        # Same index semantics as list.insert(): place the element directly
+        # before the current member at that position (or after the last
+        # member), regardless of other kinds of children in between.
+        members = elmlist._elements
+        if index < 0:
+            index = max(len(members) + index, 0)
+        parent_elm = elmlist._parent._element
         try:
-            indexof = elmlist._parent._element.index
-            if index > 0:
-                parent_index = indexof(elmlist._elements[index - 1]) + 1
-            elif index < -1:
-                parent_index = indexof(elmlist._elements[index + 1]) - 1
+            if index < len(members):
+                parent_index = parent_elm.index(members[index])
+            elif members:
+                parent_index = parent_elm.index(members[-1]) + 1
             else:
-                parent_index = index
+                parent_index = len(parent_elm)
         except ValueError:
-            parent_index = len(elmlist._parent._element)
+            parent_index = len(parent_elm)
         if value._element.getparent() is not None:
             # moving an existing element: its old fragment must forget it
             elmlist._model._loader.idcache_remove(value._element)
@@ -1872,16 +1878,22 @@ class RoleTagAccessor(WritableAccessor, PhysicalAccessor):
             raise NotImplementedError("Cannot insert new objects yet")
         if value._model is not elmlist._model:
             raise ValueError("Cannot move elements between models")
+        # Same index semantics as list.insert(): place the element directly
+        # before the current member at that position (or after the last
+        # member), regardless of other kinds of children in between.
+        members = elmlist._elements
+        if index < 0:
+            index = max(len(members) + index, 0)
+        parent_elm = elmlist._parent._element
         try:
-            indexof = elmlist._parent._element.index
-            if index > 0:
-                parent_index = indexof(elmlist._elements[index - 1]) + 1
-            elif index < -1:
-                parent_index = indexof(elmlist._elements[index + 1]) - 1
+            if index < len(members):
+                parent_index = parent_elm.index(members[index])
+            elif members:
+                parent_index = parent_elm.index(members[-1]) + 1
             else:
-                parent_index = index
+                parent_index = len(parent_elm)
         except ValueError:
-            parent_index = len(elmlist._parent._element)
+            parent_index = len(parent_elm)
         if value._element.getparent() is not None:
             # moving an existing element: its old fragment must forget it
             elmlist._model._loader.idcache_remove(value._element)
